@@ -21,12 +21,15 @@ package main
 // TotalAlloc delta) above 32 MiB + 4096 x input length are reported as ALLOC.
 
 import (
+	"bytes"
 	"encoding/hex"
 	"fmt"
 	"os"
 	"path/filepath"
 	"runtime"
+	"strconv"
 	"strings"
+	"time"
 
 	"github.com/blinklabs-io/gouroboros/cbor"
 	"github.com/blinklabs-io/gouroboros/ledger"
@@ -34,7 +37,8 @@ import (
 )
 
 func init() {
-	register(&Prop{ID: "C02", Gen: genC02, Run: runC02})
+	// generous per-op deadline: a verdict must not depend on machine load (a genuine loop never returns)
+	register(&Prop{ID: "C02", Gen: genC02, Run: runC02, Timeout: 120 * time.Second})
 }
 
 func c02Typed(entry string, b []byte) (bool, bool) { // (known entry, ok)
@@ -154,6 +158,26 @@ func infoStr(c int, h uint32, i bool) string { return fmt.Sprintf("%d,%d,%s", c,
 
 func runC02(op string) string {
 	f := strings.Fields(op)
+	if len(f) == 4 && f[0] == "rawb" {
+		b, ok := unhex(f[1])
+		off, e1 := strconv.ParseInt(f[2], 10, 64)
+		ln, e2 := strconv.ParseInt(f[3], 10, 64)
+		if !ok || e1 != nil || e2 != nil {
+			return "bad-op"
+		}
+		d, err := cbor.NewStreamDecoder(b)
+		if err != nil {
+			return "err:streamdecoder"
+		}
+		res := d.RawBytes(int(off), int(ln))
+		if res == nil {
+			return "nil"
+		}
+		if off < 0 || off+int64(len(res)) > int64(len(b)) || !bytes.Equal(res, b[off:off+int64(len(res))]) {
+			return fmt.Sprintf("MISMATCH RawBytes returned %d bytes that are not data[%d:]", len(res), off)
+		}
+		return fmt.Sprintf("%d,%d", off, off+int64(len(res)))
+	}
 	if len(f) != 2 {
 		return "bad-op"
 	}
@@ -324,7 +348,7 @@ func c02Seeds(r *Rand) (big []c02Seed, small []c02Seed) {
 	// sum-type samples and protocol messages
 	for _, st := range sumTypes {
 		for _, v := range st.variants {
-			small = append(small, c02Seed{[]string{"sum:" + st.name, "idlist", "wf", "value", "generr", "txerr"}, v.node().bytes()})
+			small = append(small, c02Seed{[]string{"sum:" + st.name, "idlist", "wf", "value", "generr", "txerr"}, func() []byte { root, _ := st.build(v); return root.bytes() }()})
 		}
 	}
 	for _, p := range c04Protos {
@@ -448,6 +472,33 @@ func genC02(r *Rand, n int, tier string, emit func(string)) {
 	for _, s := range small {
 		out(s.entries[0], s.b)
 	}
+	// nested sums (ledger failure reasons, query leaves): every list of the input cut short at
+	// every length — the decoders index into the item lists they were handed
+	for _, st := range sumTypes {
+		if st.path == nil || len(st.variants) == 0 {
+			continue
+		}
+		for _, v := range []sumVariant{st.variants[0], st.variants[r.Intn(len(st.variants))]} {
+			root, _ := st.build(v)
+			nn := root.count()
+			for i := 0; i < nn; i++ {
+				if k := root.nth(i); k.major != 4 {
+					continue
+				}
+				ln := len(root.nth(i).kids)
+				for j := 0; j < ln; j++ {
+					c := root.clone()
+					a := c.nth(i)
+					a.kids = a.kids[:j]
+					b := c.bytes()
+					out("sum:"+st.name, b)
+					if strings.Contains(st.name, "fail") {
+						out("txerr", b)
+					}
+				}
+			}
+		}
+	}
 	nBig := n / 40
 	for i := 0; i < nBig && len(big) > 0; i++ {
 		s := big[r.Intn(len(big))]
@@ -461,6 +512,14 @@ func genC02(r *Rand, n int, tier string, emit func(string)) {
 			b = mutateBytes(r, s.b)
 		}
 		out(s.entries[r.Intn(len(s.entries))], b)
+	}
+	for i := 0; i < 40+n/50; i++ {
+		b := r.Bytes(r.Intn(12))
+		edge := func() int64 {
+			return Pick(r, int64(0), 1, int64(len(b)), int64(len(b))+1, int64(len(b))-1, -1, 1<<63-1, 1<<63-2, -1<<63, 1<<62, int64(r.Intn(14)), int64(r.Intn(14)))
+		}
+		emit(fmt.Sprintf("rawb %s %d %d", hexs(b), edge(), edge()))
+		cnt++
 	}
 	typedAll := []string{"value", "lazy", "anyv", "diag", "diagtx", "diagblk", "sdiag", "sitems", "skipn", "idlist", "txout", "addr", "generr", "txerr",
 		"block:1", "block:5", "block:7", "blockoff:6", "header:2", "header:7", "tx:7", "tx:1", "txbody:5"}
